@@ -560,7 +560,8 @@ class Text(Input):
     def _clean(self, value):
         try:
             fvalue = float(value)
-            if fvalue == -999:
+            # Same missing value encodings as for NetCDF files (verif.util.clean)
+            if fvalue == -999 or fvalue > 1e30:
                 fvalue = np.nan
             return fvalue
         except ValueError:
